@@ -4,7 +4,13 @@
    them as  pslice n tag off len  instead of hundreds of literals. *)
 From Bifrost Require Import Lib.Base.
 
-Definition patt (n tag : nat) : bytes :=
-  map (fun i => 97 + Z.of_nat ((i * 7 + tag * 11 + i / 26) mod 26)) (seq 0 n).
+(* binary arithmetic: unary nat multiplication / division would dominate the evaluation *)
+Fixpoint patt_from (i : Z) (tag : Z) (n : nat) : bytes :=
+  match n with
+  | O => []
+  | S n' => (97 + (i * 7 + tag * 11 + i / 26) mod 26) :: patt_from (i + 1) tag n'
+  end.
+
+Definition patt (n tag : nat) : bytes := patt_from 0 (Z.of_nat tag) n.
 
 Definition pslice (n tag off len : nat) : bytes := firstn len (skipn off (patt n tag)).
